@@ -229,6 +229,23 @@ for version in ('1.0', '2.0'):
         samples=lambda rng: ({'s': s} for s in STRS)))
 
 
+# ---- is_xml_codepoint: the XML 1.0 Char production, for all integers (codepoints-to-string raises FOCH0001 exactly outside it; the JSON functions
+#      replace exactly the characters outside it) -----------------------------------------------------------------------------------------------------
+from elementpath import helpers as _helpers          # noqa: E402
+
+
+def xml_char(cp):
+    """XML 1.0 (5th ed.) production [2] Char ::= #x9 | #xA | #xD | [#x20-#xD7FF] | [#xE000-#xFFFD] | [#x10000-#x10FFFF]"""
+    return cp == 9 or cp == 10 or cp == 13 or (32 <= cp and cp <= 55295) or (57344 <= cp and cp <= 65533) or (65536 <= cp and cp <= 1114111)
+
+
+CONTRACTS.append(Contract(
+    'is_xml_codepoint', 'C09', lambda: _helpers.is_xml_codepoint, lambda S, ex: Case([S.int('cp')]),
+    post=[('is_the_Char_production_for_every_integer', "returned and result == xml_char(cp)")],
+    specs=[xml_char], native=lambda i: run_native(lambda: _helpers.is_xml_codepoint(i['cp'])),
+    samples=lambda rng: ({'cp': c} for c in (-1, 0, 8, 9, 10, 11, 13, 31, 32, 0xD7FF, 0xD800, 0xDFFF, 0xE000, 0xFFFD, 0xFFFE, 0xFFFF, 0x10000, 0x10FFFF, 0x110000)),
+    expect_min_obligations=1))
+
 # ---- bounded stand-ins: functions outside the solver's reach (labelled bounded) -----------------
 import itertools          # noqa: E402
 from fractions import Fraction    # noqa: E402
